@@ -6,8 +6,10 @@
  * alphabet), ctx (every initial byte in every parent context, all truncations),
  * gram (systematic + random well-formed trees and their single-edit
  * neighbours), deep (nesting chains around the limit), seq (C14). */
+#define _GNU_SOURCE
 #include <stdio_ext.h>
 #include <sys/mman.h>
+#include <unistd.h>
 
 #include "vh.h"
 
@@ -120,20 +122,23 @@ static void describe_to_failing_sinks(const cbor_item_t* it, size_t n_in) {
  * file mapping. A store into the input - even one undone before returning - is a SIGSEGV there; the verdicts must equal
  * those obtained from writable memory. */
 enum { RO_IN_BYTES = 1 << 16 };
-static uint8_t* g_ro_in;
+static uint8_t* g_ro_in;  /* the view the library is given: PROT_READ, followed by an inaccessible page */
+static uint8_t* g_ro_fill; /* a second, writable view of the same pages, through which the harness places the input */
 static uint64_t g_ro_in_cases;
 static void readonly_input_pass(const uint8_t* src, size_t n, bool had_item, size_t read, int code) {
   if (n == 0 || n > RO_IN_BYTES) return;
   if (!g_ro_in) {
-    g_ro_in = mmap(NULL, RO_IN_BYTES + 4096, PROT_NONE, MAP_PRIVATE | MAP_ANONYMOUS | MAP_NORESERVE, -1, 0);
-    if (g_ro_in == MAP_FAILED) vh_die("read-only input region: mmap failed");
+    int fd = memfd_create("vh-readonly-input", 0);
+    if (fd < 0 || ftruncate(fd, RO_IN_BYTES)) vh_die("read-only input region: memfd failed");
+    g_ro_fill = mmap(NULL, RO_IN_BYTES, PROT_READ | PROT_WRITE, MAP_SHARED, fd, 0);
+    uint8_t* region = mmap(NULL, RO_IN_BYTES + 4096, PROT_NONE, MAP_PRIVATE | MAP_ANONYMOUS | MAP_NORESERVE, -1, 0);
+    if (g_ro_fill == MAP_FAILED || region == MAP_FAILED) vh_die("read-only input region: mmap failed");
+    g_ro_in = mmap(region, RO_IN_BYTES, PROT_READ, MAP_SHARED | MAP_FIXED, fd, 0);
+    if (g_ro_in == MAP_FAILED) vh_die("read-only input region: mapping the read-only view failed");
+    close(fd);
   }
+  memcpy(g_ro_fill + RO_IN_BYTES - n, src, n);
   uint8_t* at = g_ro_in + RO_IN_BYTES - n;
-  uint8_t* pg = (uint8_t*)((uintptr_t)at & ~(uintptr_t)4095);
-  size_t plen = (size_t)(g_ro_in + RO_IN_BYTES - pg);
-  if (mprotect(pg, plen, PROT_READ | PROT_WRITE)) vh_die("read-only input region: mprotect failed");
-  memcpy(at, src, n);
-  if (mprotect(pg, plen, PROT_READ)) vh_die("read-only input region: mprotect failed");
   struct cbor_load_result r;
   memset(&r, 0x5A, sizeof r);
   const uint64_t ref0 = TA.refused;
@@ -148,7 +153,6 @@ static void readonly_input_pass(const uint8_t* src, size_t n, bool had_item, siz
     if (d.status != CBOR_DECODER_FINISHED || d.read == 0) break;
     off += d.read;
   }
-  if (mprotect(pg, plen, PROT_NONE)) vh_die("read-only input region: mprotect failed");
   g_ro_in_cases++;
   if ((g_ro_in_cases & 1023) == 0) VH_COUNT("readonly_input_decodes", 1024);
 }
